@@ -60,6 +60,10 @@ def main():
         from . import cli
 
         cli.main()
+    elif pid == "C13":
+        from . import textparse
+
+        textparse.main()
     else:
         print("no check registered for %s" % pid)
         sys.exit(3)
